@@ -388,6 +388,56 @@ theorem pollPrelude_counters (stale : Timer → Bool) (s : St) :
   · simp [h]
   · simp [h]
 
+/-! ## the invariants through whole `janet_loop1` steps and `janet_loop` -/
+
+private theorem inv_timers {s : St} (ts : List Timer) (h : Inv s) : Inv { s with timers := ts } := by
+  obtain ⟨hc, hk, hr⟩ := h
+  exact ⟨hc, hk, hr⟩
+
+private theorem inv_pollPrelude (stale : Timer → Bool) {s : St} (h : Inv s) : Inv (pollPrelude stale s) := by
+  unfold pollPrelude
+  by_cases hg : (!s.timers.isEmpty || s.lc != 0) = true
+  · rw [if_pos hg]; exact inv_timers _ h
+  · rw [if_neg hg]; exact h
+
+/-- ★ a whole event-loop step (expired timers, every popped task with whatever it does, stale-timer drop, poll deliveries)
+    preserves the counter and root invariants -/
+theorem loop1_inv (cfg : Cfg) {s s' : St} (i : StepIn) (hi : Inv s) (h : loop1 cfg s i = some s') : Inv s' := by
+  unfold loop1 at h
+  cases h1 : run cfg s (expireEvents i.expired ++ (i.tasks.map Task.events).flatten) with
+  | none => rw [h1] at h; simp at h
+  | some s1 =>
+    rw [h1] at h
+    have hi1 := run_inv cfg _ hi h1
+    have hi2 := inv_pollPrelude i.stale hi1
+    simp only at h
+    by_cases hw : willPoll (pollPrelude i.stale s1) = true
+    · rw [if_pos hw] at h; exact run_inv cfg _ hi2 h
+    · rw [if_neg hw] at h; simp at h; subst h; exact hi2
+
+theorem janetLoop_inv (cfg : Cfg) : ∀ (is : List StepIn) {s s' : St}, Inv s → janetLoop cfg s is = some s' → Inv s'
+  | [], s, s', hi, h => by simp [janetLoop] at h; subst h; exact hi
+  | i :: is, s, s', hi, h => by
+    simp only [janetLoop] at h
+    by_cases hd : loopDone s = true
+    · rw [if_pos hd] at h; simp at h; subst h; exact hi
+    · rw [if_neg hd] at h
+      cases h1 : loop1 cfg s i with
+      | none => rw [h1] at h; simp at h
+      | some s1 =>
+        rw [h1] at h
+        exact janetLoop_inv cfg is (loop1_inv cfg i hi h1) h
+
+/-- ★ whenever `janet_loop` returns (its `while (!janet_loop_done())` test fails) nothing is outstanding -/
+theorem janetLoop_exit_nothing_outstanding (cfg : Cfg) (is : List StepIn) {s : St}
+    (h : janetLoop cfg init is = some s) (hd : loopDone s = true) :
+    s.runq = [] ∧ s.timers = [] ∧ s.susp = [] ∧ s.lis = 0 ∧ s.posted = 0 ∧ s.postedNull = 0 ∧ s.calls = 0 := by
+  obtain ⟨hc, _, _⟩ := janetLoop_inv cfg is inv_init h
+  unfold CounterInv at hc
+  obtain ⟨hq, ht, hl⟩ := (loopDone_iff s).1 hd
+  have hlen : s.susp.length = 0 := by omega
+  refine ⟨hq, ht, List.eq_nil_of_length_eq_zero hlen, ?_, ?_, ?_, ?_⟩ <;> omega
+
 /-! ## gc roots -/
 
 /-- ★ every gcroot made by an operation has a matching gcunroot on every completion path: once nothing is outstanding,
@@ -479,6 +529,12 @@ example : (run Cfg.ofGen init
 example : (run Cfg.ofGen init
     [.sched 1, .pop 1, .astart, .tadd ⟨1, false⟩, .ran 1 true, .sched 2, .pop 2, .await, .ran 2 true,
      .deliverAwait, .sched 2, .pop 2, .ran 2 false, .aend, .sched 1, .tpop ⟨1, false⟩, .pop 1, .ran 1 false]).map summary
+    = some (0, 0, true, true, 0) := by decide
+
+/-- two full steps: main starts a sleeping task and returns; the timer fires; the loop is done -/
+example : (janetLoop Cfg.ofGen { init with runq := [1] }
+    [ { expired := [], tasks := [⟨1, false, [.sched 2], false⟩, ⟨2, false, [.tadd ⟨2, false⟩], true⟩], stale := fun _ => false, delivered := [] },
+      { expired := [(⟨2, false⟩, some 2)], tasks := [⟨2, false, [], false⟩], stale := fun _ => false, delivered := [] } ]).map summary
     = some (0, 0, true, true, 0) := by decide
 
 end JanetModel.Props.C20
